@@ -11,7 +11,7 @@ NAME_POOL = ['a', 'b', 'c', 'foo', 'foobar', 'A', 'a b', 'x%y', 'n\nl', '-r', 'Ã
 DIR_POOL = ['', 'd', 'd/e', 'foo', 'a', 'deep/er/still', 'sp ace', 'Ã©']
 DATES = ['2024-01-01T00:00:00', '2023-12-31T23:59:59', '2000-02-29T12:00:00', '1999-12-31T00:00:00', '2024-03-01T10:20:30',
          '2030-01-01T00:00:00', '2024-01-01T00:00:01', '2023-06-15T08:09:10']
-BAD_DATES = ['', 'garbage', '2024-13-01T00:00:00', '2024-02-30T00:00:00', '2024-01-01 00:00:00', '2024-01-01T00:00:00x',
+BAD_DATES = ['2023-0', '202', '2023-01-0', '2023-01-01T0', '2023-01-01T00:0', '', 'garbage', '2024-13-01T00:00:00', '2024-02-30T00:00:00', '2024-01-01 00:00:00', '2024-01-01T00:00:00x',
              '2024-01-01T24:00:00', '0000-01-01T00:00:00', '2024-1-1T0:0:0']
 
 
@@ -211,7 +211,7 @@ def populate(rng, lay, n_entries=None, malformed_rate=0.25, insecure_too=True, r
     # escaped form is longer than 4 KiB (80-character CJK components: 1.7 kB on disk, 5 kB in the info file)
     if n and rng.random() < 0.4:
         td, vol, kind, usable = rng.choice(dirs)
-        fam = rng.choice(['suffix', 'suffix', 'percent', 'twice', 'long'])
+        fam = rng.choice(['suffix', 'suffix', 'percent', 'twice', 'long', 'dots'])
         sub = rng.choice(DIR_POOL)
         if fam == 'suffix':
             x = rng.choice(['notes', 'a', 'Ã©'])
@@ -220,6 +220,9 @@ def populate(rng, lay, n_entries=None, malformed_rate=0.25, insecure_too=True, r
             members = rng.choice([[('p1', 'per%41'), ('p2', 'perA')], [('p1', 'r%20f.txt'), ('p2', 'r f.txt')], [('p1', '100%25'), ('p2', '100%')]])
         elif fam == 'twice':
             members = [('same', 'same'), ('same_1', 'same')]
+        elif fam == 'dots':
+            # files literally named '...trashinfo' / '..trashinfo': a careless suffix cut gives the payload names '..' and '.'
+            members = [('...trashinfo', '...trashinfo'), ('..trashinfo', '..trashinfo')]
         else:
             members = [('long', '/'.join(['\u6f22' * 80] * rng.choice([6, 7])) + '/report.txt')]
         two_dates = rng.sample(DATES, 2)
